@@ -31,7 +31,7 @@ func normalizeNodeURI(nodeURI, nodeID, defaultHost, defaultPort string) (string,
 		if uri.User == nil && isNodeID(uri.Hostname()) {
 			// enode://<id> without an address: what looks like the host to
 			// the URL parser is the node ID, not somewhere to dial.
-			if uri.Hostname() != nodeID {
+			if canonicalNodeID(uri.Hostname()) != nodeID {
 				return "", fmt.Errorf("nodeID %q does not match nodeURI: %s", pretty.Abbrev(nodeID), nodeURI)
 			}
 		} else if bareIPv6 {
@@ -46,7 +46,7 @@ func normalizeNodeURI(nodeURI, nodeID, defaultHost, defaultPort string) (string,
 			port = p
 		}
 
-		if username := uri.User.Username(); username != "" && username != nodeID {
+		if username := uri.User.Username(); username != "" && canonicalNodeID(username) != nodeID {
 			return "", fmt.Errorf("nodeID %q does not match nodeURI: %s", pretty.Abbrev(nodeID), nodeURI)
 		}
 	}
